@@ -19,7 +19,7 @@ ALL_TAGS = ["Artist", "ArtistSort", "Album", "AlbumSort", "AlbumArtist", "AlbumA
 TAGKEYS += ALL_TAGS
 TAGKEYS += ["_comment", "-x", "x_", "a--b", "__"]     # the protocol's name alphabet is letters, `_` and `-` in any position
 # known names in other letter cases (the library documents case-insensitive parsing: values must land under the same tag)
-TAGKEYS_ODD = ["artist", "ARTIST", "title", "X_Y", "a-b"] + [t.lower() for t in ALL_TAGS] + [t.upper() for t in ALL_TAGS] + [t.swapcase() for t in ALL_TAGS[::3]]
+TAGKEYS_ODD = ["artist", "ARTIST", "title", "X_Y", "a-b", "x_y", "X-CUSTOM", "x-Custom", "mood", "Mood", "MOOD"] + [t.lower() for t in ALL_TAGS] + [t.upper() for t in ALL_TAGS] + [t.swapcase() for t in ALL_TAGS[::3]]
 TEXT = ["", "x", "Foo Bar", "été", "a=b=c", "OK", "ACK [5@0] {} x", "binary: 3", "list_OK", "a: b", "100%", "  lead", "trail  ", "x" * 300,
         "dos line\r", "one\rtwo", "\r", "tab\there"]          # CR / TAB are ordinary value bytes (the line ends at LF only)
 TS = ["2020-06-12T17:53:00Z", "2021-01-01T00:00:00+02:00", "1970-01-01T00:00:00Z"]
@@ -45,7 +45,11 @@ def b(s):
 
 
 def kv(k, v):
-    return [b(k), b(v)]
+    return [b(k), b(v) if isinstance(v, str) else v]
+
+
+def b2s(v):
+    return bytes(v).decode("utf-8", "replace")
 
 
 def song_attrs(rng, good, queue):
@@ -71,6 +75,10 @@ def song_attrs(rng, good, queue):
     for _ in range(rng.randint(0, 4)):
         k = rng.choice(TAGKEYS) if rng.random() < 0.75 else rng.choice(TAGKEYS_ODD)
         attrs.append(kv(k, rng.choice(TEXT)))
+        if rng.random() < 0.25:
+            # the same tag again: an identical value (a file tagged twice), or the same unknown name in another letter case
+            k2 = k if rng.random() < 0.7 or k in ALL_TAGS else rng.choice([k.lower(), k.upper(), k.swapcase()])
+            attrs.append(kv(k2, attrs[-1][1] if rng.random() < 0.6 else b2s(attrs[-1][1]) + "2"))
     rng.shuffle(attrs)
     if not good and rng.random() < 0.15 and attrs:
         attrs.append(rng.choice(attrs))  # a repeated attribute
@@ -107,11 +115,11 @@ def status(rng, good):
     opt = lambda p: rng.random() < p
     if opt(0.8):
         f.append(kv("volume", pick(["0", "50", "100", "101", "255"], NUMS)))
-    f.append(kv("repeat", pick(["0", "1"], ["2", "", "true", "01"] + ENUM_ODD)))
-    f.append(kv("random", pick(["0", "1"], ["2", "", "-1"])))
+    f.append(kv("repeat", pick(["0", "1"], ["2", "", "true", "01", "00", "+1", "+0", "001"] + ENUM_ODD)))
+    f.append(kv("random", pick(["0", "1"], ["2", "", "-1", "01", "+1", "1 ", "yes"])))
     if opt(0.8):
         f.append(kv("single", pick(["0", "1", "oneshot"], ["2", "", "Oneshot", "on"] + ENUM_ODD)))
-    f.append(kv("consume", pick(["0", "1"], ["oneshot", "2", ""])))
+    f.append(kv("consume", pick(["0", "1"], ["oneshot", "2", "", "00", "+0"])))
     if opt(0.7):
         f.append(kv("partition", rng.choice(["default", "x y", ""])))
     if opt(0.8):
@@ -223,7 +231,9 @@ def pairs(rng, good, k1, k2, v1, v2):
     return f
 
 
-STICKV = ["name=value", "a=b=c", "rating=5", "=", "x=", "=y", "k=é", "note=dos line\r", "n=one\rtwo"]
+STICKV = ["name=value", "a=b=c", "rating=5", "=", "x=", "=y", "k=é", "note=dos line\r", "n=one\rtwo",
+          # sticker NAMES with non-ASCII characters; values that begin with the requested name ("n", "rating") followed by other characters
+          "évaluation=5", "humör=glad=ja", "né=1", "評価=3", "nü=x", "ratingé=5", "rating", "n", "nn=n=n", "ratings=4"]
 STICKV_ODD = ["novalue", "", "x"] + LONGS[0:15]
 
 
@@ -249,6 +259,9 @@ def shaped(rng, cmd, good):
     binv = []
     if cmd in ("Queue", "QueueRange"):
         f = listing(rng, good, True)
+        if cmd == "QueueRange":
+            p["qkind"] = rng.choice(["song", "id", "range", "range", "range_incl", "range_from", "range_to", "range_full"])
+            p["qfrom"], p["qto"] = rng.choice([(0, 0), (0, 1), (2, 5), (5, 2), (5, 3), (3, 3), (0, 4294967295), (7, 0)])
     elif cmd == "CurrentSong":
         f = listing(rng, good, True, maxn=1 if good or rng.random() < 0.8 else 2)
     elif cmd in ("Find", "GetPlaylist"):
@@ -273,6 +286,7 @@ def shaped(rng, cmd, good):
     elif cmd == "GetPlaylists":
         f = pairs(rng, good, "playlist", "Last-Modified", ["p", "x y", ""], TS if good else TS + TS_ODD)
     elif cmd == "StickerGet":
+        p["sname"] = rng.choice(["n", "n", "rating", "né", "name"])
         f = [kv("sticker", rng.choice(STICKV if good else STICKV + STICKV_ODD))]
         if not good and rng.random() < 0.3:
             f = rng.choice([[], [kv("foo", "a=b")], f + f])
